@@ -73,9 +73,14 @@ impl Raw {
     /// Receive until the endpoint under test has nothing more to say: with the
     /// clock paused a 1 ms timeout only expires once no task is runnable.
     pub async fn drain(&mut self) -> Vec<Got> {
+        self.drain_for(1).await
+    }
+
+    /// Like `drain`, but only gives up after `ms` virtual milliseconds of silence.
+    pub async fn drain_for(&mut self, ms: u64) -> Vec<Got> {
         let mut out = Vec::new();
         loop {
-            match tokio::time::timeout(Duration::from_millis(1), self.recv()).await {
+            match tokio::time::timeout(Duration::from_millis(ms), self.recv()).await {
                 Ok(Got::End) => {
                     out.push(Got::End);
                     return out;
